@@ -15,7 +15,8 @@ import vlib
 
 PROP = "C08"
 TSAN_SOURCES = ["C08_tsan_loop.cc", "C08_tsan_conn.cc", "C08_tsan_base.cc"]
-TSAN_WRAP = ["__tsan_read8", "__tsan_write4"]       # forced schedules (harness/C08_tsan.h)
+THOROUGH_ROUNDS = 40                                  # per scenario and per poller (epoll, poll)
+TSAN_WRAP = ["__tsan_read8", "__tsan_write4", "__tsan_read4"]       # forced schedules (harness/C08_tsan.h)
 FAILFAST_OPS = ["loop", "updateChannel", "removeChannel", "hasChannel", "pool_start", "pool_getNextLoop",
                 "pool_getLoopForHash", "pool_getAllLoops", "conn_connectEstablished", "conn_connectDestroyed",
                 "server_start", "server_dtor"]
@@ -108,7 +109,7 @@ def table_class(cls, field):
     return _TABLE_CLASS.get((cls, field), "?")
 
 
-BORROW_KINDS = ("rawthis", "borrowed-view", "borrowed-ptr", "borrowed-ref")
+BORROW_KINDS = ("rawthis", "borrowed-view", "borrowed-ptr", "borrowed-ref", "rawthis-callback", "borrowed-callback")
 _TABLE_CONTRACT = {}
 
 
@@ -202,6 +203,18 @@ def viol_text(recs, v, summary):
                 (cls, what, site, where, "/".join(thread_roots(cls)) or "?",
                  "no join() on any path" if jg is None else
                  "join() is skipped on the strength of %s, which that thread itself writes" % ",".join(jg)))
+    if kind in ("rawthis-callback", "borrowed-callback"):
+        where, tgt = "", "?"
+        try:
+            md = summary["classes"][cls]["methods"][meth]
+            ra = [a for a in md["regargs"] if a[3] == what]
+            where = " at " + ",".join(sorted(set("%s:%s" % (a[6], a[7]) for a in ra)))
+            tgt = "/".join(sorted(set("%s::%s" % (a[0], a[1]) for a in ra)))
+        except (KeyError, IndexError):
+            pass
+        return ("%s::%s registers %s bound to %s as a callback on a shared_ptr-managed object (%s)%s: the callback lives as long "
+                "as that object and fires on its loop thread, possibly after this %s is gone"
+                % (cls, site, what, "the raw `this`" if kind == "rawthis-callback" else "a borrowed argument", tgt, where, cls))
     if kind in BORROW_KINDS:
         where = ""
         try:
@@ -220,7 +233,12 @@ def viol_text(recs, v, summary):
     if kind == "useafter":
         flags = [w[2] for w in (l.split("#")[0].split() for l in open(os.path.join(vlib.ROOT, "lib", "C08_table.txt")))
                  if len(w) >= 3 and w[0] == "exitflag" and w[1] == cls]
-        return ("%s::%s still uses %s after storing %s, the flag on which the owner thread leaves its loop and destroys the "
+        try:
+            tl = summary["classes"][cls]["methods"][meth]["tails"]
+            flags = [g for g in flags if what in tl.get(g, [])] or flags
+        except KeyError:
+            pass
+        return ("%s::%s still uses %s after storing %s, on which the owner thread may leave its loop and destroy the "
                 "object (~%s): use after release" % (cls, site, what, "/".join(flags) or "the exit flag", cls))
     if kind == "call":
         return "%s::%s (an any-thread / loop context) calls the loop-only or set-up method %s directly" % (cls, site, what)
@@ -355,11 +373,15 @@ def run_one(exe, args, env, timeout=40):
         return 124, (ex.stdout or b"").decode("utf-8", "replace"), (ex.stderr or b"").decode("utf-8", "replace") + "\nTIMEOUT", time.time() - t0
 
 
-def run_scenarios(exe, names, rounds, jobs=12):
-    """-> list of (name, round, rc, stdout, stderr, secs)"""
+POLLER_ENV = {"epoll": {}, "poll": {"MUDUO_USE_POLL": "1"}}      # muduo/net/poller/DefaultPoller.cc
+
+
+def run_scenarios(exe, names, rounds, jobs=12, poller="epoll"):
+    """-> list of (name, "round/poller", rc, stdout, stderr, secs)"""
     work = [(n, r) for r in range(rounds) for n in names]
+    env = dict(TSAN_ENV, **POLLER_ENV[poller])
     with ThreadPoolExecutor(max_workers=jobs) as ex:
-        res = list(ex.map(lambda nr: (nr[0], nr[1]) + run_one(exe, [nr[0]], TSAN_ENV), work))
+        res = list(ex.map(lambda nr: (nr[0], "%d/%s" % (nr[1], poller)) + run_one(exe, [nr[0]], env), work))
     return res
 
 
@@ -424,7 +446,7 @@ def run(chk, replay=None):
         static_only = [n for (k, n, o, f) in items if k == "static"]
     else:
         corpus = load_cases(sorted(glob.glob(os.path.join(vlib.ROOT, "corpus", PROP, "*.case"))))
-        rounds = 1 if tier == "quick" else 6
+        rounds = 1 if tier == "quick" else THOROUGH_ROUNDS
         scen = [(n, max(rounds, int(o.get("rounds", 1)) if tier != "quick" else 1)) for (k, n, o, f) in corpus if k == "scenario"]
         seen = set(n for n, _ in scen)
         # x_* scenarios are demonstrations of hazards outside C08's operation list (docs/C08.md); they run only from a replay file
@@ -491,10 +513,14 @@ def run(chk, replay=None):
     t1 = time.time()
     results = []
     maxr = max([r for _, r in scen] + [0])
-    for r in range(maxr):
-        names = [n for (n, rr) in scen if rr > r]
-        results += run_scenarios(tsan, names, 1)
+    pollers = ["epoll"] if (tier == "quick" and not replay) else ["epoll", "poll"]
+    for poller in pollers:
+        for r in range(maxr):
+            names = [n for (n, rr) in scen if rr > r]
+            results += run_scenarios(tsan, names, 1, poller=poller)
     t2 = time.time()
+    by_poller = dict((pl, len([1 for x in results if x[1].endswith("/" + pl)])) for pl in pollers)
+    distinct = {}     # (member or report key, the two sites) -> instances
     reports = {}      # (class, field) or ('?', text-hash) -> dict
     scen_fail = []
     scen_members = {}  # scenario -> [((class, field), methods)] of the reports of its runs
@@ -511,9 +537,20 @@ def run(chk, replay=None):
         ran.add(name)
         if ("scenario %s done" % name) not in so:
             scen_fail.append((name, rc, fail_tail(se, so)))
+        def bv_hits(rep_):
+            lt_ = lifetime_methods(rep_)
+            # (the functor itself, or its ...InLoop continuation posted with the same raw this)
+            return sorted(set(bv for bv in BV for cm in (lt_ or ()) if cm[0] == bv[0] and cm[1] in (bv[1], bv[1] + "InLoop")))
+        run_hits = sorted(set(h for rep_ in reps for h in bv_hits(rep_)))
         for rep in reps:
-            lt = lifetime_methods(rep)
-            hits = sorted(cm for cm in (lt or ()) if cm in BV)
+            sig = (rep["kind"], tuple(sorted("%s:%d" % (os.path.basename(fr[0][1]), fr[0][2]) if fr else "?"
+                                             for (_w, fr) in [(w_, [x for x in f_ if x[1].startswith(vlib.REPO)] or f_) for (w_, f_) in rep["stacks"][:2]])))
+            distinct[sig] = distinct.get(sig, 0) + 1
+            hits = bv_hits(rep)
+            if not hits and run_hits and rep["kind"] != "data race":
+                # the same run already has a functor running on a destroyed object: locking its dead mutex, touching
+                # other freed members ... are consequences of that use-after-free, not separate findings
+                hits = run_hits
             if hits:
                 # the functor of a borrow / raw-this violation touching memory that is gone
                 for cm in hits:
@@ -539,6 +576,10 @@ def run(chk, replay=None):
                 d["all"].append((name, rep, ms))
                 d["count"] += 1
     chk.cov["tsan"] = {"scenarios": len(set(n for n, _ in scen)), "runs": len(results), "wall_s": round(t2 - t1, 1),
+                       "runs_by_poller": by_poller, "rounds_per_scenario_and_poller": maxr,
+                       "report_instances": sum(distinct.values()),
+                       "distinct_reports": len(distinct),
+                       "distinct_report_sites": sorted("%s %s x%d" % (k[0], "|".join(k[1]), n) for k, n in distinct.items())[:80],
                        "reports": sorted("%s::%s" % (k[-2], k[-1]) if k[0] != "?" else k[1] for k in reports)}
 
     def explain_abort(name, tail):
@@ -596,8 +637,9 @@ def run(chk, replay=None):
     # ---- fail-fast suite
     ff_bad = []
     with ThreadPoolExecutor(max_workers=8) as ex:
-        ffres = list(ex.map(lambda op: (op,) + run_one(ff, [op], {"ASAN_OPTIONS": "detect_leaks=0:handle_abort=0"}, timeout=20),
-                            ["control_owner_ok"] + ffops))
+        ffwork = [(op, pl) for pl in pollers for op in ["control_owner_ok"] + ffops]
+        ffres = list(ex.map(lambda w: (w[0],) + run_one(ff, [w[0]], dict({"ASAN_OPTIONS": "detect_leaks=0:handle_abort=0"}, **POLLER_ENV[w[1]]),
+                                                        timeout=20), ffwork))
     for (op, rc, so, se, secs) in ffres:
         chk.cov["evaluations"] += 1
         txt = so + se
@@ -609,7 +651,8 @@ def run(chk, replay=None):
         if not aborted or "abortNotInLoopThread" not in txt or "REACHED-AFTER" in so:
             ff_bad.append((op, "confined operation %s called from a foreign thread did not abort in abortNotInLoopThread "
                                "(exit status %s%s)" % (op, rc, ", the call returned" if "REACHED-AFTER" in so else ""), txt[-1500:]))
-    chk.cov["failfast"] = {"ops": ffops, "aborted": len(ffops) - len([b for b in ff_bad if b[0] != "control_owner_ok"])}
+    chk.cov["failfast"] = {"ops": ffops, "pollers": pollers, "runs": len(ffres),
+                           "aborted": len(ffres) - len(pollers) - len([b for b in ff_bad if b[0] != "control_owner_ok"])}
 
     # ---- verdicts
     def replay_text(header, items, body):
@@ -619,6 +662,9 @@ def run(chk, replay=None):
     def witness_for(cls, field, site=None):
         d = reports.get((cls, field)) or reports.get(("~", cls, field))
         if d and site:
+            for (name, rep, ms) in d.get("all", []):       # a report whose stacks pass through the site itself
+                if any(("::%s(" % site.split("/")[-1]) in fn for (_w, fr) in rep["stacks"][:2] for (fn, fl, ln) in fr):
+                    return {"scenario": name, "rep": rep}
             for (name, rep, ms) in d.get("all", []):
                 if site.split("/")[-1] in ms or site.split("/")[0] in ms:
                     return {"scenario": name, "rep": rep}
